@@ -53,6 +53,12 @@ HASH_HEAVY = [
     ("AsRef", "#[as_ref(u8)] #[as_ref([u8])] #[as_ref(str)] #[as_ref(String)] #[as_ref(Vec<u8>)] struct S(String);"),
     ("AsMut", "struct S { #[as_mut(u8)] #[as_mut([u8])] #[as_mut(Vec<u8>)] #[as_mut(Box<u8>)] a: Vec<u8>, #[as_mut(i8)] #[as_mut(i16)] #[as_mut(i32)] b: i64 }"),
     ("Into", "#[into(u16)] #[into(u32, u64)] #[into(ref(u8))] #[into(ref_mut(u8), owned(u128))] #[into(i16, i32)] struct S(u8);"),
+    # ignored fields in front of the selected source / backtrace: two index spaces (among all fields, among the enabled ones)
+    ("Error", "struct S { #[error(ignore)] a: u8, source: E1 }"), ("Error", "struct S(#[error(ignore)] u8, #[error(source)] E1);"),
+    ("Error", "struct S { #[error(ignore)] a: u8, #[error(ignore)] b: u8, #[error(source)] c: E1, d: u8 }"),
+    ("Error", "struct S(#[error(ignore)] u8, #[error(ignore)] u8, #[error(ignore)] u8, #[error(source)] E1);"),
+    ("Error", "enum E { A(#[error(ignore)] u8, #[error(source)] E1), B { #[error(ignore)] a: u8, #[error(ignore)] b: u8, source: E1 } }"),
+    ("Error", "struct S(#[error(ignore)] u8, E1, #[error(backtrace)] Backtrace);"),
     ("Error", "struct E<A, B, C, D> { source: A, b: B, c: C, d: D }"),
     ("Error", "enum E<A, B, C, D, F> { V1 { source: A }, V2(#[error(source)] B, u8), V3(C), V4 { #[error(source)] x: D, y: F }, V5 }"),
     ("Error", "enum E<A, B, C> { V1 { source: Box<A> }, V2(#[error(source)] Vec<B>), V3(#[error(source)] Option<C>, A), V4(#[error(not(source))] B) }"),
